@@ -18,8 +18,12 @@ func main() {
 		n = 60 * o.Scale
 	}
 	var hs []*c01lib.Hist
-	// the F-C01-1 scenario (known finding), on both header widths
+	// the F-C01-1 scenario (mid-body stall across five read timeouts; fixed finding body-timeout-misroute), on both header widths
 	hs = append(hs, c01lib.StallHist(0, 4), c01lib.StallHist(1, 2))
+	// cancellation inside the write-coalescing window, then id reuse while the answers are late
+	for v, proto := range []int{2, 4, 2, 3, 2, 1} {
+		hs = append(hs, c01lib.CoalCancelHist(len(hs), proto, v))
+	}
 	for i := len(hs); i < n; i++ {
 		hs = append(hs, c01lib.Gen(o.Rng, i, c01lib.Routing))
 	}
